@@ -135,7 +135,7 @@ pub fn exec(op: &Op) -> R {
             let rc = v.remove(*k);
             drop(v);
             let t = w.objs[*o as usize].held.remove(*k);
-            if w.cfg.class == Class::Elide && w.rec_of(*o, t) > w.objs[*o as usize].held.iter().filter(|&&x| x == t).count() as u32 {
+            if w.cfg.allow_stale && w.rec_of(*o, t) > w.objs[*o as usize].held.iter().filter(|&&x| x == t).count() as u32 {
                 w.stats.elide_takes += 1;
             }
             w.push_handle(rc, t);
@@ -511,7 +511,7 @@ fn check_upgrade(w: &mut World, t: Option<ObjId>, r: Option<Rc<Node>>, what: &st
         }
         (Some(t), r) => {
             let st = w.objs[t as usize].state;
-            let lenient = st == St::Alive && in_flight(w) && !w.reachable()[t as usize];
+            let lenient = st == St::Alive && in_flight(w) && (!w.reachable()[t as usize] || w.predicted_by_stale(t));
             match r {
                 Some(rc) => {
                     w.stats.upgrades_some += 1;
@@ -963,6 +963,9 @@ pub fn run_scripts(node: &Node, when: When) {
                 if !reach[t as usize] {
                     return inv(format!("#{} is not reachable by the program", t));
                 }
+                if w.predicted_by_stale(t) {
+                    return inv(format!("#{} is being destroyed because of a stale record (known C13 finding)", t));
+                }
             }
             Ok(())
         });
@@ -1015,7 +1018,7 @@ pub fn probe_and_drop_own_weak(me: u32, wk: Weak<Node>) {
         if let Some(t) = tgt {
             let st = w.objs[t as usize].state;
             if st == St::Alive {
-                if w.reachable()[t as usize] {
+                if w.reachable()[t as usize] && !w.predicted_by_stale(t) {
                     // this very handle is still in existence (popped from the ledger already)
                     let es = w.strong(t) as usize;
                     let ew = w.weak(t) as usize + 1;
